@@ -173,7 +173,7 @@ def run_remote(root):
             raise ValueError(t["id"])
         return t["id"] + acc
     sa, sb = make_service("A"), make_service("B")
-    cfg = {"allow_public_attrs": True, "sync_request_timeout": 10}
+    cfg = {"allow_public_attrs": True, "sync_request_timeout": 30}
     ca, cb, _, _ = connect_pair(sa, sb, cfg, cfg)
     ends["A"], ends["B"] = ca, cb
     try:
@@ -282,7 +282,7 @@ def run_tree2(root, remote, cfg_extra):
                     def exposed_run(self, nid):
                         return run(trees[nid], side)
                 return Svc()
-            cfg = dict({"allow_public_attrs": True, "sync_request_timeout": 10}, **cfg_extra)
+            cfg = dict({"allow_public_attrs": True, "sync_request_timeout": 30}, **cfg_extra)
             ca, cb, _, _ = connect_pair(make_service("A"), make_service("B"), cfg, cfg)
             ends["A"], ends["B"] = ca, cb
         try:
